@@ -335,7 +335,9 @@ func R19(group string) Rule {
 			c.Fn("filterRow")
 			nInter, nPred := 0, 0
 			// recursive evaluations in filterRow or the per-kind helpers it is split into
-			fscope := P.Scope(fRow, func(f *ssa.Function) bool { return core.PkgPathOf(f) != core.PkgBttest || core.FuncName(f) == "copyRow" })
+			fscope := P.Scope(fRow, func(f *ssa.Function) bool {
+				return core.PkgPathOf(f) != core.PkgBttest || core.FuncName(f) == "copyRow"
+			})
 			for _, call := range scopeCallsTo(fscope, core.PkgBttest, "filterRow") {
 				chain := strings.Join(ownerFieldChain(call.Call.Args[0]), " ")
 				switch {
